@@ -156,6 +156,8 @@ def install_fault(sim, fault):
                     return
             elif fault.get('thread') is None and not is_victim(sim, t):
                 return
+            if fault.get('proc_tag') is not None and getattr(t.proc, 'tag', None) != fault['proc_tag']:
+                return
             if what and str(what).startswith(fault['on_block']):
                 st['n'] += 1
                 if st['n'] == fault.get('occ', 1):
